@@ -88,7 +88,12 @@ fn serialize_cluster_tail(
     raw_data_size: Size,
     ser: &mut Serializer,
 ) -> std::io::Result<()> {
-    let offset_size = needed_bytes(cluster.data_size().into_u64());
+    // Offsets and both sizes are stored with the same width.
+    // The raw (stored) size may be bigger than the data size if the data doesn't compress.
+    let offset_size = needed_bytes(std::cmp::max(
+        cluster.data_size().into_u64(),
+        raw_data_size.into_u64(),
+    ));
     let cluster_header = ClusterHeader::new(
         compression.into(),
         offset_size,
